@@ -22,7 +22,9 @@ def dp_case(draw):
     spec = draw(G.signal_spec(classes=["DualPolarizationSignal"], nmin=1, nmax=24, nchan_max=5, max_trailing=2, data_kinds=("noise",)))
     return {"sig": spec, "kind": draw(st.sampled_from(KINDS)), "scale": draw(st.sampled_from([1.0, 1.0, 1e-3, 1e3, 1e-10, 1e8])),
             "dask": draw(st.integers(0, 5)) == 0, "chunking": draw(st.sampled_from(["half", "ragged", "ragged", "ones"])),
-            "prep": draw(st.sampled_from(["none", "none", "none", "pickle", "pickle", "deepcopy", "copy"]))}
+            "prep": draw(st.sampled_from(["none", "none", "none", "pickle", "pickle", "deepcopy", "copy"])),
+            # memory layout of the samples: C order, Fortran order, or a transposed view (what readers that swap axes hand out)
+            "layout": draw(st.sampled_from(["C", "C", "F", "T", "T2"]))}
 
 
 def mk(case):
@@ -94,7 +96,18 @@ def run_dp(case, stt):
         if case.get("chunking") == "ones":
             # single-sample blocks along time (short signals) and across the polarisation axis; halves elsewhere (the graph stays small)
             chunks = tuple(1 if ax == 2 or (ax == 0 and n <= 8) else max(1, n // 2) for ax, n in enumerate(data.shape))
-    z = G.build(spec, data=data.copy(), chunks=chunks)
+    held = data.copy()
+    lay = case.get("layout", "C")
+    if lay == "F":
+        held = np.asfortranarray(held)
+    elif lay in ("T", "T2") and held.ndim >= 3:
+        # the same values, axes stored in another order (a view of an array whose channel and polarisation axes are swapped in memory)
+        perm = (0, 2, 1) + tuple(range(3, held.ndim)) if lay == "T" else (2, 1, 0) + tuple(range(3, held.ndim))
+        held = np.ascontiguousarray(held.transpose(perm)).transpose(np.argsort(perm))
+        assert held.shape == data.shape and not held.flags.c_contiguous or held.size <= 1 or 1 in held.shape[:3]
+    z = G.build(spec, data=held, chunks=chunks)
+    if not case["dask"]:
+        stt.label("layout_" + lay)
     prep = case.get("prep", "none")
     if prep != "none":
         # the signal reached the caller through pickle (another process) / deepcopy / copy: the same signal
